@@ -732,6 +732,11 @@ def check_charset(case, acc):
   cct = bytes(case["gsi"]["cct"]).decode()
   doc = stl_reader.to_model(io.BytesIO(data), None)
   pars = obs_paragraphs(doc)
+  if len(pars) != 1:
+    acc.case("count-mismatch", nontrivial=True)
+    acc.violation("C09.count", "fewer" if not pars else "more", case, observed=len(pars), expected=1,
+                  note="number of paragraphs (subtitles / cumulative sets) in the document")
+    return
   text = "".join(ch for p in pars for ln in obs_lines(p["el"]) for ch, _ in ln)
   tf = bytes(case["ttis"][0]["tf"])
   body = tf[1:-1]
